@@ -7,6 +7,7 @@ CONSTANTS
   DeepDepth = 2
   HierDepth = 2
   XDepth = 1
+  SelfDepth = 2
   Wide = FALSE
   EmitCases = FALSE
 INIT Init
